@@ -105,7 +105,11 @@ fn one<const D: usize>(id: &str, rng: &mut Rng, out: &mut Out, with_process: boo
     tri::input_lines(&vs, &mut ids, out);
     macro_rules! fin { ($r:expr) => { match $r {
         Ok(Ok(dt)) => { out.obs("result", "ok"); tri::export(&dt, &mut ids, out);
-            if ps.gp {
+            // uniqueness of the result is only demanded where the floating-point predicates can
+            // see the general position: small integer coordinates (every orientation / in-sphere
+            // determinant is a non-zero integer, far outside the tolerance band)
+            let float_visible_gp = ps.gp && ps.pts.iter().all(|p| p.iter().all(|x| x.fract() == 0.0 && x.abs() <= 64.0));
+            if float_visible_gp {
                 let base = cell_sig(&dt);
                 for (o, s) in sig_by_order.iter().enumerate() { if !s.starts_with("ERR") && *s != base { problems.push(format!("general position: ordering {o} gives a different cell set than Hilbert")); } }
                 // incremental build must agree too
@@ -176,7 +180,7 @@ pub fn run(cfg: &Cfg, rng: &mut Rng, out: &mut Out) {
         tie_cluster::<3>(&format!("tc3_{i}"), rng, out);
         tie_cluster::<4>(&format!("tc4_{i}"), rng, out);
     }
-    let n = if thorough { 300 } else { 36 };
+    let n = if thorough { 300 } else { 72 };
     for i in 0..n {
         let id = format!("n{i}");
         let wp = i % 4 == 0;
